@@ -536,7 +536,16 @@ pub fn compactopt_stream(a: &snel_harness::out::Args) {
         for round in 0..rounds {
             let v = s.compact(0);
             let ok = v.as_ref().map(|v| v["ok"].as_bool().unwrap_or(false)).unwrap_or(false);
-            outcomes.push(if ok { "ok" } else { "err" });
+            if v.is_none() {
+                // the round panicked and took the process with it (in the engine proper the
+                // background compaction task of the shard dies): a process death part-way through
+                // a round - restart and judge the answers
+                outcomes.push("died");
+                s.kill();
+                s = Session::start(&root, &cfg);
+            } else {
+                outcomes.push(if ok { "ok" } else { "err" });
+            }
             std::thread::sleep(std::time::Duration::from_millis(150));
             let after = read(&mut s);
             if after != before && fail.is_none() {
@@ -544,7 +553,7 @@ pub fn compactopt_stream(a: &snel_harness::out::Args) {
             }
         }
         s.kill();
-        let mut s = Session::start(&root, &cfg);
+        s = Session::start(&root, &cfg);
         let after = read(&mut s);
         if after != before && fail.is_none() {
             fail = Some(format!("after the restart that follows the rounds the answers are [{after}], before the rounds [{before}]"));
@@ -552,7 +561,7 @@ pub fn compactopt_stream(a: &snel_harness::out::Args) {
         drop(s);
         let _ = std::fs::remove_dir_all(&root);
         let desc = format!("compactopt cap={cap} k={} segs={nseg} with_note={} rounds={}", cfg.segments_per_merge, with_note.len(), outcomes.join(","));
-        st.tally(if outcomes.iter().any(|o| *o == "err") { "some_round_failed" } else { "all_rounds_ok" });
+        st.tally(if outcomes.iter().any(|o| *o == "died") { "some_round_panicked" } else if outcomes.iter().any(|o| *o == "err") { "some_round_failed" } else { "all_rounds_ok" });
         st.tally(if with_note.is_empty() { "field_never_present" } else if with_note.len() as u64 == k { "field_always_present" } else { "field_sometimes_present" });
         st.case(&desc, "-", true);
         match fail {
